@@ -1,3 +1,5 @@
 -- Root of the `RotondaModel` library: models, helper proofs, property theorems.
 import RotondaModel.Model.Frim
 import RotondaModel.Props.C18
+import RotondaModel.Model.BmpIo
+import RotondaModel.Props.C06
